@@ -7,7 +7,7 @@ T=$(cd $W && PYTHONPATH=$W/src /venv/bin/python -m pytest -q -p no:cacheprovider
 DEMO_WITH=$(cd $W && PYTHONPATH=$W/src timeout 120 /venv/bin/python $D/demo.py >/dev/null 2>&1; echo $?)
 echo "[$P/$N] tests: $T | demo with patch exit=$DEMO_WITH"
 for c in $CHECKS; do
-  OUT=$(cd /verif && VERIF_PYOAK_SRC=$W/src ./check $c 2>&1 | grep -E "VIOLATION|KNOWN|^\[$c\]" | cut -c1-160 | head -4)
+  OUT=$(cd /verif && VERIF_PYOAK_SRC=$W/src ./check $c 2>&1 | grep -E "VIOLATION|^\[$c\]" | cut -c1-160 | head -4)
   echo "  check $c: $OUT"
 done
 cd $W && git checkout -q -- .
